@@ -109,8 +109,26 @@ CLAIMS = {
          "Tied scores excluded (as the property does)."),
 }
 
+# properties whose obligations include refinement theorems about code REGENERATED from the source by tools/go2lean
+TRANSL = {
+ "C01": "Vector.AddVec/ScaleVec/VecDot/KBNSummer (the kernels one power iteration is made of)",
+ "C02": "Vector.AddVec/ScaleVec/VecDot/KBNSummer (the kernels one power iteration is made of)",
+ "C04": "basic.Canonicalize and CanonicalizeTrustVector",
+ "C08": "basic.ExtractDistrust and DiscountTrustVector",
+ "C09": "KBNSummer.Add/Sum, Vector.Sum/AddVec/SubVec/scaleInPlace/ScaleVec/Assign/Clone/Reset/SetDim and VecDot",
+ "C10": "CSMatrix.Dim/NNZ/SetMinorDim",
+ "C11": "mergeSpan and Vector.Merge (incl. the overlay property stated on the translated code)",
+}
+
 def entry(pid):
     text, partial = CLAIMS[pid]
+    technique = "Lean 4 machine-checked proof + model/implementation correspondence check"
+    if pid in TRANSL:
+        text += (" Second tie, by proof: the current source of " + TRANSL[pid] + " is translated statement by statement to Lean on every run "
+                 "(tools/go2lean -> Gen/Translated.lean) and refinement theorems (Props/Tr*.lean; all inputs, termination included) show that the "
+                 "translated code computes exactly the hand-written model these theorems are about.")
+        partial += (" The translation uses value semantics (no slice/pointer aliasing, no capacity, unbounded ints) and is itself trusted; see DESIGN.md 14.3.")
+        technique = "Lean 4 machine-checked proof + Go-to-Lean translation of the kernels with refinement theorems + correspondence check"
     return {
         "property_id": pid,
         "quick_cmd": f"./check {pid} quick",
@@ -120,7 +138,7 @@ def entry(pid):
         "engine": "lean-model",
         "level_claimed": {"category": "proof", "text": text, "design_ref": f"DESIGN.md section 6 / {pid}"},
         "level_note": COMMON_NOTE + "Not carried by the theorems: " + partial,
-        "technique": "Lean 4 machine-checked proof + model/implementation correspondence check",
+        "technique": technique,
     }
 
 def main():
@@ -138,6 +156,8 @@ def main():
              "kind_free_text": "Go correspondence harness running the real code in-process (module replace => /repo)"},
             {"name": "gofacts", "path": "tools/gofacts", "serves_properties": [p for p in claimed if p in ("C06", "C07", "C12", "C13", "C14", "C15")],
              "kind_free_text": "go/ast fact extractor regenerating lean/EtVerif/Gen/Facts.lean on every run"},
+            {"name": "go2lean", "path": "tools/go2lean", "serves_properties": [p for p in claimed if p in TRANSL],
+             "kind_free_text": "Go -> Lean translator (go/ast) regenerating lean/EtVerif/Gen/Translated.lean from the kernels of pkg/sparse and pkg/basic on every run; refinement theorems in lean/EtVerif/Props/Tr*.lean"},
         ],
         "checks": [entry(p) for p in claimed],
         "not_applicable": na,
